@@ -525,6 +525,10 @@ func Step(w *World, op Op, res Res) ([]*World, *Reject) {
 		return out, nil
 	}
 	if !res.OK() {
+		switch res.Err {
+		case "ErrSentExceedsTotal", "ErrPaymentInternal", "ErrUnknownPaymentStatus", "ErrNoAttemptInfo", "ErrPaymentTerminal":
+			return nil, &Reject{"store-inconsistent", fmt.Sprintf("%s failed with %s (%s): the store reports its own records as inconsistent; model state %s", op, res.Err, res.Msg, describe(w, op))}
+		}
 		if !Truthful(res.Err, w, op) {
 			return nil, &Reject{"untruthful-error", fmt.Sprintf("%s was refused with %s, which does not describe the payment: model state %s", op, res.Err, describe(w, op))}
 		}
